@@ -192,7 +192,7 @@ func main() {
 								sels = [][2]bool{{false, false}, {true, false}, {false, true}, {true, true}}
 							}
 							for _, s := range sels {
-								r := Req{Mode: m.mode, Promise: m.promise, After: a, Before: b, SelPI: s[0], SelTC: s[1], Vars: R.Chance(1, 3), NullAbsent: R.Chance(1, 4)}
+								r := Req{Mode: m.mode, Promise: m.promise, After: a, Before: b, SelPI: s[0], SelTC: s[1], Vars: R.Chance(1, 3), NullAbsent: R.Chance(1, 4), NilEmpty: R.Bool()}
 								if fwd {
 									r.First = ip(n)
 								} else {
@@ -207,7 +207,7 @@ func main() {
 			// count errors
 			for _, fl := range [][2]*int{{nil, nil}, {ip(-1), nil}, {ip(-2), nil}, {nil, ip(-1)}, {nil, ip(-3)}, {ip(1), ip(1)}, {ip(0), ip(0)}, {ip(-1), ip(1)}, {ip(1), ip(-1)}, {ip(-1), ip(-1)}, {ip(2), ip(0)}} {
 				for _, a := range []*CurArg{nil, curs[len(curs)-1], {Kind: "raw", S: "!!"}} {
-					r := Req{Mode: m.mode, Promise: m.promise, First: fl[0], Last: fl[1], After: a, SelPI: R.Bool(), SelTC: R.Bool(), Vars: R.Chance(1, 3), NullAbsent: R.Chance(1, 4)}
+					r := Req{Mode: m.mode, Promise: m.promise, First: fl[0], Last: fl[1], After: a, SelPI: R.Bool(), SelTC: R.Bool(), Vars: R.Chance(1, 3), NullAbsent: R.Chance(1, 4), NilEmpty: R.Bool()}
 					h.check(Case{Kind: "served", E: E, Policy: R.Intn(numPolicies), PolicySeed: R.Uint64() >> 1, Req: &r})
 				}
 			}
@@ -227,7 +227,7 @@ func main() {
 		for _, s := range raws {
 			for _, m := range modes {
 				for k := 0; k < 3; k++ {
-					r := Req{Mode: m.mode, Promise: m.promise, SelPI: true, SelTC: R.Bool(), Vars: R.Bool()}
+					r := Req{Mode: m.mode, Promise: m.promise, SelPI: true, SelTC: R.Bool(), Vars: R.Bool(), NilEmpty: R.Bool()}
 					raw := &CurArg{Kind: "raw", S: s}
 					switch k {
 					case 0:
@@ -286,7 +286,7 @@ func main() {
 				return &CurArg{Kind: "emitted", C: c, S: emit(c)}
 			}
 		}
-		rq := Req{Mode: m.mode, Promise: m.promise, After: pickCur(), Before: pickCur(), SelPI: r.Chance(3, 4), SelTC: r.Bool(), Vars: r.Bool(), NullAbsent: r.Chance(1, 4)}
+		rq := Req{Mode: m.mode, Promise: m.promise, After: pickCur(), Before: pickCur(), SelPI: r.Chance(3, 4), SelTC: r.Bool(), Vars: r.Bool(), NullAbsent: r.Chance(1, 4), NilEmpty: r.Bool()}
 		if r.Bool() {
 			rq.First = ip(r.Range(0, n+1))
 		} else {
